@@ -729,7 +729,9 @@ def run_shard(ctx):
             mode = algo_option.mode_stopping_criterion_gradient_descent
             el = eps_label(algo_option.eps)
             tdesc = md.t if md.t != "Povm" else ("Povm(m=2)" if md.m == 2 else "Povm(m>=3)")
-            key = f"pgdb:{tdesc}:on_para_eq_constraint={md.flag}:{fam_}:{mode}:estimate-is-not-a-minimiser"
+            # mechanism key: object class + parametrisation (loss family and stopping mode are in the witness info;
+            # which of them show the defect varies with the seed)
+            key = f"pgdb:{tdesc}:on_para_eq_constraint={md.flag}:estimate-is-not-a-minimiser"
             info = {"type": md.t, "flag": md.flag, "loss": type(loss).__name__, "mode": mode, "eps": algo_option.eps,
                     "history": algo_option.num_history_stopping_criterion_gradient_descent, "regime": ds.regime}
             rec = {"fam": fam_, "mode": mode, "eps": el, "v": v_hat, "ds": ds, "judged": False, "gap": None, "ok": False,
